@@ -78,6 +78,20 @@ def bin_completion(binner: Binner, binsize: float, items: List[Any])->BinsArray:
     # Remove zeros from items as they are irrelevant.
     items = [item for item in items if binner.valueof(item)!=0]
 
+    # The search below works directly on numbers. If the items are names (dict input, or a list of names
+    # with a valueof function), solve the problem for their values and then put the names back.
+    values = [binner.valueof(item) for item in items]
+    if values != list(items):
+        names_by_value = {}
+        for item, value in zip(items, values):
+            names_by_value.setdefault(value, []).append(item)
+        value_bins = bin_completion(BinnerKeepingContents(), binsize, values)
+        bins = binner.new_bins(len(value_bins[1]))
+        for ibin, bin_values in enumerate(value_bins[1]):
+            for value in bin_values:
+                binner.add_item_to_bin(bins, names_by_value[value].pop(0), ibin)
+        return bins
+
     # Find the BFD solution and check if it's optimal using the lower bound calculation.
     bfd_solution = best_fit.decreasing(binner, binsize, items)
     lb = lower_bound(binsize, map(binner.valueof, items))
